@@ -93,6 +93,11 @@ def cases(ctx, tier):
             n2, d2 = n + rng.choice([0, 1, -1]), d
             g = math.gcd(n2, d2); n2 //= g; d2 //= g
         out.append(('mpq_cmp %s %s %s %s %d' % (hx(n), hx(d), hx(n2), hx(d2), 1 if rng.random() < 0.05 else 0), 'mpq_cmp'))
+        # same numerator, denominators that agree in their low limbs but differ in length
+        dd = d + (rng.getrandbits(64) | 1) * (1 << (64 * ((d.bit_length() + 63) // 64)))
+        if math.gcd(n, dd) == 1 and math.gcd(n, d) == 1:
+            out.append(('mpq_cmp %s %s %s %s 0' % (hx(n), hx(d), hx(n), hx(dd)), 'mpq_cmp-lowlimbs'))
+            out.append(('mpq_cmp %s %s %s %s 0' % (hx(n), hx(dd), hx(n), hx(d)), 'mpq_cmp-lowlimbs'))
         un = rng.choice([0, 1, (1 << 64) - 1, rng.getrandbits(64)]); ud = rng.choice([1, 2, (1 << 64) - 1, rng.getrandbits(64) | 1])
         out.append(('mpq_cmp_ui %s %s %x %x' % (hx(n), hx(d), un, ud), 'mpq_cmp_ui'))
         sn = rng.choice([0, 1, -1, (1 << 63) - 1, -(1 << 63), rng.randrange(-(1 << 63), 1 << 63)])
